@@ -376,3 +376,21 @@ Section Basic.
     - match goal with |- ?L = _ => let v := eval vm_compute in L in change L with v end.
       destruct (final_shape evs Hev) as (a & b & c & d & e & f & g & h & i & Hf). rewrite Hf in *. destruct HR as (R1 & _). specialize (R1 Eint). spec_unfold. lia. Qed.
 End Basic.
+
+(* ------------------------------------------------------------------ converse classes are mirror images
+   within / coveredBy are contains / covers with the roles of A and B exchanged: their configuration functions
+   (which input must cover the other, whose exterior has to be checked) must be each other's mirror, otherwise
+   P(A,B) and its converse asked as (B,A) would examine different things. *)
+From GeosV.Gen Require RP_Contains_requireExteriorCheck RP_Within_requireExteriorCheck RP_Covers_requireExteriorCheck RP_CoveredBy_requireExteriorCheck.
+Theorem mirror_requireCovers : forall isA : bool,
+  RP_Within_requireCovers.m_requireCovers_1 isA = RP_Contains_requireCovers.m_requireCovers_1 (negb isA) /\
+  RP_CoveredBy_requireCovers.m_requireCovers_1 isA = RP_Covers_requireCovers.m_requireCovers_1 (negb isA) /\
+  RP_Covers_requireCovers.m_requireCovers_1 isA = RP_Contains_requireCovers.m_requireCovers_1 isA.
+Proof. intros []; repeat split; reflexivity. Qed.
+Theorem mirror_requireExteriorCheck : forall isA : bool,
+  RP_Within_requireExteriorCheck.m_requireExteriorCheck_1 isA = RP_Contains_requireExteriorCheck.m_requireExteriorCheck_1 (negb isA) /\
+  RP_CoveredBy_requireExteriorCheck.m_requireExteriorCheck_1 isA = RP_Covers_requireExteriorCheck.m_requireExteriorCheck_1 (negb isA) /\
+  RP_Covers_requireExteriorCheck.m_requireExteriorCheck_1 isA = RP_Contains_requireExteriorCheck.m_requireExteriorCheck_1 isA /\
+  (* the exterior that matters is that of the geometry which has to cover the other *)
+  RP_Contains_requireExteriorCheck.m_requireExteriorCheck_1 isA = negb (RP_Contains_requireCovers.m_requireCovers_1 isA).
+Proof. intros []; repeat split; reflexivity. Qed.
